@@ -106,14 +106,19 @@ def inferReport (L : LBlock) : List (String × Json) :=
    ("ranked", Json.bool (rankedChk (ldefsB L) (ldefsB L).length && closedChk (ldefsB L))),
    ("nstates", jNat (ldefsB L).length)]
 
-/-- args: {"body": untraced program} -> {"woven": traced program, "infer": …, "annot": …, "wf", "nodup"} -/
+/-- args: {"body": untraced program, "fixed": bool (default true: the pass with fixes/FC07a; false: `weaveOld`)}
+-> {"woven": traced program, "infer": …, "annot": …, "wf", "nodup", "plain", "bad"} -/
 def weaveH : Handler := fun j => do
   let p ← pblockOfJson (← field j "body")
-  let L := weave p
+  let fixed ← match j.getObjVal? "fixed" with
+    | .ok b => bool b
+    | .error _ => pure true
+  let L := if fixed then weave p else weaveOld p
+  let bad := if fixed then weaveBad p else weaveOldBad p
   return Json.mkObj ([
     ("woven", lblockToJson L),
     ("wf", Json.bool (wfB (eraseP p))), ("nodup", Json.bool (nodupPB p)),
-    ("plain", Json.bool (plainPB p)), ("bad", Json.bool (weaveBad p))] ++ inferReport L)
+    ("plain", Json.bool (plainPB p)), ("bad", Json.bool bad)] ++ inferReport L)
 
 /-- args: {"body": traced program (converted real IR)} -> {"infer": …, "annot": …} -/
 def inferH : Handler := fun j => do
